@@ -266,6 +266,7 @@ def _live_run(exe, conf, env, scratch, moddir, case):
                 if open("/proc/%d/syscall" % p.pid).read().split()[0] in ("232", "281", "441"):
                     break
             except (OSError, IndexError):
+                time.sleep(1.5)      # the kernel does not show the system call: give start-up its time instead
                 break
             if p.poll() is not None:
                 break
